@@ -691,6 +691,10 @@ var niceStrings = []string{"a", "b", "c", "x", "y", "", "\n", "a\nb", "p", "q", 
 func solveModelB(ss *SolverSet, base []*Term, names []string, nts []*Term, extra []*Term, to int, useCVC bool, deadline time.Time, maxRounds int) ModelResult {
 	res := ModelResult{}
 	total := 0
+	named := map[*Term]bool{}
+	for _, t := range nts {
+		named[t] = true
+	}
 	for level := 0; level <= 2; level++ {
 		var pins []*Term
 		for round := 0; round < maxRounds; round++ {
@@ -710,22 +714,18 @@ func solveModelB(ss *SolverSet, base []*Term, names []string, nts []*Term, extra
 			for _, a := range extra {
 				a.collect(vars, ufs, seen)
 			}
-			// axioms may introduce further applications (e.g. unquote(goquote(s))): include them
-			for changed := true; changed; {
-				changed = false
-				for u := range ufs {
-					for _, ax := range ufAxioms(u) {
-						n := len(ufs)
-						ax.collect(vars, ufs, seen)
-						if len(ufs) != n {
-							changed = true
-						}
-					}
-				}
-			}
 			if pins == nil && level <= 1 {
 				var hs []*Term
 				for u := range ufs {
+					plain := true
+					for _, a := range u.Args {
+						if a.Op != "var" {
+							plain = false
+						}
+					}
+					if !plain {
+						continue // hints only where the argument is an input itself
+					}
 					if h := batteryHint(u); h != nil && !h.IsFalse() {
 						hs = append(hs, h)
 					}
@@ -744,22 +744,20 @@ func solveModelB(ss *SolverSet, base []*Term, names []string, nts []*Term, extra
 					}
 				}
 			}
-			var apps []*Term
-			for u := range ufs {
-				if nativeUF(u.Name) != nil {
-					apps = append(apps, u)
+			// values of every free variable (named inputs first, then witnesses introduced by the encoding)
+			var allVars []*Term
+			allVars = append(allVars, nts...)
+			var others []*Term
+			for v := range vars {
+				if !named[v] {
+					others = append(others, v)
 				}
 			}
-			sort.Slice(apps, func(i, j int) bool { return apps[i].id < apps[j].id })
-			gv := append([]*Term{}, nts...)
-			gv = append(gv, extra...)
-			for _, a := range apps {
-				gv = append(gv, a)
-				gv = append(gv, a.Args...)
-			}
-			v := ss.decideF(asserts, gv, to, useCVC, true)
-			if v.Result == "sat" && v.Model == nil && len(gv) == 0 {
-				v.Model = []string{}
+			sort.Slice(others, func(i, j int) bool { return others[i].id < others[j].id })
+			allVars = append(allVars, others...)
+			v := solveByComponents(ss, asserts, allVars, to, useCVC)
+			if os.Getenv("GOSMT_DEBUG_REFINE") != "" {
+				fmt.Fprintf(os.Stderr, "model search level %d round %d pins=%v: %s %v\n", level, round, pins != nil, v.Result, v.Solvers)
 			}
 			if pins != nil && (v.Result != "sat" || v.Model == nil) {
 				// the pinned inputs do not stay on this path under the real library values: unpin and go on
@@ -781,32 +779,41 @@ func solveModelB(ss *SolverSet, base []*Term, names []string, nts []*Term, extra
 			}
 			res.Solvers = v.Solvers
 			res.By = v.By
-			learned := 0
-			idx := len(nts) + len(extra)
-			if os.Getenv("GOSMT_DEBUG_REFINE") != "" {
-				fmt.Fprintf(os.Stderr, "refine level %d round %d pins=%v by=%s model=%v\n", level, round, pins != nil, v.By, v.Model)
+			// validate the model with the native evaluator (real library functions for every UF)
+			env := newEvalEnv()
+			for i, t := range allVars {
+				env.vars[t] = v.Model[i]
 			}
-			for _, a := range apps {
-				appVal := v.Model[idx]
-				argVals := v.Model[idx+1 : idx+1+len(a.Args)]
-				idx += 1 + len(a.Args)
-				nat, ok := nativeUF(a.Name)(argVals)
-				if !ok {
-					continue
-				}
-				if nat != appVal {
-					addGroundFact(a, argVals, nat)
+			all, ok, ff := env.evalAll(base)
+			if os.Getenv("GOSMT_DEBUG_REFINE") != "" && ff != nil {
+				fmt.Fprintf(os.Stderr, "   native evaluation: first false conjunct %s\n", truncate(ff.String(), 300))
+			}
+			// whatever the outcome, the real values of the applications met are facts
+			learned := 0
+			for app, args := range env.apps {
+				if addGroundFact(app, args, env.appv[app]) {
 					learned++
 				}
 			}
-			if learned == 0 {
-				res.Status = "sat"
-				res.Model = map[string]string{}
-				for i, n := range names {
-					res.Model[n] = v.Model[i]
+			if ok && all {
+				ex, ok2 := env.evalStrings(extra)
+				if ok2 {
+					res.Status = "sat"
+					res.Model = map[string]string{}
+					for i, n := range names {
+						res.Model[n] = v.Model[i]
+					}
+					res.Extra = ex
+					return res
 				}
-				res.Extra = v.Model[len(nts) : len(nts)+len(extra)]
-				return res
+			}
+			if learned == 0 && pins != nil {
+				// nothing new to learn with these inputs: they do not satisfy the path under the real library
+				pins = nil
+				if level < 2 {
+					break
+				}
+				continue
 			}
 			// keep the inputs, let the solver recompute everything that depends on the corrected values
 			pins = nil
@@ -818,6 +825,123 @@ func solveModelB(ss *SolverSet, base []*Term, names []string, nts []*Term, extra
 	res.Status = "inconclusive"
 	res.Reason = "UF refinement against the real library did not converge"
 	return res
+}
+
+// solveByComponents splits the assertions into groups that share no variable, solves each
+// group on its own (small queries) and merges the models. Uninterpreted functions do not
+// link groups here: the merged model is validated afterwards with the real functions.
+func solveByComponents(ss *SolverSet, asserts []*Term, allVars []*Term, to int, useCVC bool) Verdict {
+	varsOf := func(t *Term) []int {
+		var out []int
+		for _, v := range termFV(t) {
+			if v > 0 {
+				out = append(out, v)
+			}
+		}
+		return out
+	}
+	parent := map[int]int{}
+	var find func(x int) int
+	find = func(x int) int {
+		if p, ok := parent[x]; ok && p != x {
+			r := find(p)
+			parent[x] = r
+			return r
+		}
+		parent[x] = x
+		return x
+	}
+	for _, a := range asserts {
+		vs := varsOf(a)
+		for i := 1; i < len(vs); i++ {
+			parent[find(vs[i])] = find(vs[0])
+		}
+		if len(vs) == 1 {
+			find(vs[0])
+		}
+	}
+	groups := map[int][]*Term{}
+	var ground []*Term
+	for _, a := range asserts {
+		vs := varsOf(a)
+		if len(vs) == 0 {
+			ground = append(ground, a)
+			continue
+		}
+		r := find(vs[0])
+		groups[r] = append(groups[r], a)
+	}
+	gvars := map[int][]*Term{}
+	for _, v := range allVars {
+		r := find(v.id)
+		gvars[r] = append(gvars[r], v)
+	}
+	out := Verdict{Result: "sat", Solvers: map[string]string{}}
+	vals := map[*Term]string{}
+	var roots []int
+	for r := range gvars {
+		roots = append(roots, r)
+	}
+	for r := range groups {
+		if _, ok := gvars[r]; !ok {
+			roots = append(roots, r)
+		}
+	}
+	sort.Ints(roots)
+	first := true
+	for _, r := range roots {
+		as := groups[r]
+		if first {
+			as = append(append([]*Term{}, as...), ground...)
+			first = false
+		}
+		if len(as) == 0 {
+			// unconstrained variables: any value
+			for _, v := range gvars[r] {
+				switch v.Sort {
+				case SStr:
+					vals[v] = "s:"
+				case SInt:
+					vals[v] = "0"
+				default:
+					vals[v] = "false"
+				}
+			}
+			continue
+		}
+		v := ss.decideF(as, gvars[r], to, useCVC, true)
+		if os.Getenv("GOSMT_DEBUG_REFINE") == "2" {
+			q := &Query{Asserts: as, GetValues: gvars[r], Facts: true}
+			os.WriteFile(fmt.Sprintf("/tmp/comp_%d.smt2", r), []byte("(set-logic ALL)\n"+q.body()+"(check-sat)\n"), 0644)
+			fmt.Fprintf(os.Stderr, "   component %d: %d asserts %d vars -> %s\n", r, len(as), len(gvars[r]), v.Result)
+		}
+		for k, s := range v.Solvers {
+			if out.Solvers[k] == "" || s != "sat" {
+				out.Solvers[k] = s
+			}
+		}
+		if v.Result == "sat" && v.Model == nil && len(gvars[r]) == 0 {
+			v.Model = []string{}
+		}
+		if v.Result != "sat" || v.Model == nil {
+			out.Result = v.Result
+			if v.Result == "sat" {
+				out.Result = "inconclusive"
+			}
+			return out
+		}
+		out.By = v.By
+		for i, x := range gvars[r] {
+			vals[x] = v.Model[i]
+		}
+	}
+	for _, v := range allVars {
+		out.Model = append(out.Model, vals[v])
+	}
+	if out.Model == nil {
+		out.Model = []string{}
+	}
+	return out
 }
 
 func (p *Path) refineAndRecord(ob *Oblig, neg *Term) {
